@@ -197,10 +197,6 @@ func (obj *Package) Unuse(pkg *Package) {
 	if obj != pkg {
 		obj.mu.Lock()
 		pkg.mu.Lock()
-		defer func() {
-			obj.mu.Unlock()
-			pkg.mu.Unlock()
-		}()
 		for i, p := range obj.Uses {
 			if pkg.Name == p.Name {
 				obj.Uses = append(obj.Uses[:i], obj.Uses[i+1:]...)
@@ -234,14 +230,29 @@ func (obj *Package) Unuse(pkg *Package) {
 				classes[name] = c
 			}
 		}
+		// An entry a used package only sees itself counts if its owner can
+		// still be reached (two packages using each other must not keep each
+		// other's copies alive).
+		reach := map[*Package]bool{}
+		reachable := func(p, owner *Package) bool {
+			if owner == p || owner == nil {
+				return true
+			}
+			ok, has := reach[owner]
+			if !has {
+				ok = obj.reaches(owner)
+				reach[owner] = ok
+			}
+			return ok
+		}
 		for _, p := range obj.Uses {
 			for name, vv := range p.vars {
-				if _, has := vars[name]; !has && vv.Export {
+				if _, has := vars[name]; !has && vv.Export && reachable(p, vv.Pkg) {
 					vars[name] = vv
 				}
 			}
 			for name, fi := range p.funcs {
-				if _, has := funcs[name]; !has && fi.Export {
+				if _, has := funcs[name]; !has && fi.Export && reachable(p, fi.Pkg) {
 					funcs[name] = fi
 				}
 			}
@@ -251,9 +262,35 @@ func (obj *Package) Unuse(pkg *Package) {
 				}
 			}
 		}
+		// What is no longer visible here must not stay visible in the
+		// packages that use this one.
+		type lost struct {
+			name string
+			vv   *VarVal
+			fi   *FuncInfo
+		}
+		var gone []lost
+		users := append([]*Package{}, obj.Users...)
+		if 0 < len(users) {
+			for name, vv := range obj.vars {
+				if vars[name] != vv {
+					gone = append(gone, lost{name: name, vv: vv})
+				}
+			}
+			for name, fi := range obj.funcs {
+				if funcs[name] != fi {
+					gone = append(gone, lost{name: name, fi: fi})
+				}
+			}
+		}
 		obj.vars = vars
 		obj.funcs = funcs
 		obj.classes = classes
+		obj.mu.Unlock()
+		pkg.mu.Unlock()
+		for _, g := range gone {
+			retract(users, g.name, g.vv, g.fi, true)
+		}
 	}
 }
 
@@ -416,7 +453,7 @@ func (obj *Package) Remove(name string) (removed bool) {
 	users := append([]*Package{}, obj.Users...)
 	obj.mu.Unlock()
 	if has && vv.Pkg == obj {
-		retract(users, name, vv, nil)
+		retract(users, name, vv, nil, false)
 	}
 	pname := fmt.Sprintf("%s:%s", obj.Name, name)
 	for _, h := range unsetHooks {
@@ -541,7 +578,7 @@ func (obj *Package) Unexport(name string) {
 	users := append([]*Package{}, obj.Users...)
 	obj.mu.Unlock()
 	if fi != nil || vv != nil {
-		retract(users, name, vv, fi)
+		retract(users, name, vv, fi, false)
 	}
 }
 
@@ -554,7 +591,7 @@ func (obj *Package) Undefine(name string) {
 	users := append([]*Package{}, obj.Users...)
 	obj.mu.Unlock()
 	if fi != nil && fi.Pkg == obj {
-		retract(users, name, nil, fi)
+		retract(users, name, nil, fi, false)
 	}
 	pname := fmt.Sprintf("%s:%s", obj.Name, name)
 	for _, h := range unsetHooks {
@@ -565,18 +602,20 @@ func (obj *Package) Undefine(name string) {
 
 // retract removes the entries for name that refer to vv or fi from the
 // packages, and from the packages that use them, so that no package keeps
-// seeing a definition that has been removed or is no longer exported. Imports
-// are not affected.
-func retract(users []*Package, name string, vv *VarVal, fi *FuncInfo) {
+// seeing a definition that has been removed or is no longer exported. If
+// alive is true the definition is still exported by its owner and is only
+// removed from packages that can no longer reach the owner through use
+// edges. Own definitions and imports are not affected.
+func retract(users []*Package, name string, vv *VarVal, fi *FuncInfo, alive bool) {
 	for _, u := range users {
 		hit := false
 		u.mu.Lock()
 		if u.Imports[name] == nil {
-			if vv != nil && vv.Pkg != u && u.vars[name] == vv {
+			if vv != nil && vv.Pkg != u && u.vars[name] == vv && !(alive && u.reaches(vv.Pkg)) {
 				delete(u.vars, name)
 				hit = true
 			}
-			if fi != nil && fi.Pkg != u && u.funcs[name] == fi {
+			if fi != nil && fi.Pkg != u && u.funcs[name] == fi && !(alive && u.reaches(fi.Pkg)) {
 				delete(u.funcs, name)
 				hit = true
 			}
@@ -584,9 +623,32 @@ func retract(users []*Package, name string, vv *VarVal, fi *FuncInfo) {
 		next := append([]*Package{}, u.Users...)
 		u.mu.Unlock()
 		if hit {
-			retract(next, name, vv, fi)
+			retract(next, name, vv, fi, alive)
 		}
 	}
+}
+
+// reaches returns true if pkg can be reached from obj by following use edges.
+func (obj *Package) reaches(pkg *Package) bool {
+	if pkg == nil {
+		return true
+	}
+	seen := map[*Package]bool{obj: true}
+	stack := []*Package{obj}
+	for 0 < len(stack) {
+		p := stack[len(stack)-1]
+		stack = stack[:len(stack)-1]
+		for _, u := range p.Uses {
+			if u == pkg {
+				return true
+			}
+			if !seen[u] {
+				seen[u] = true
+				stack = append(stack, u)
+			}
+		}
+	}
+	return false
 }
 
 // String representation of the Object.
